@@ -8,7 +8,9 @@ from .props import c05 as S
 FAM = 1
 PERM, ADD, UPDATE, GET, SUB, RECV, DROP, PROVIDE, PROVDOWN, ACTUATE, BATCH, CLEANUP, SHUTDOWN, TICK, DUMP = range(15)
 OPN = ["PERM", "ADD", "UPDATE", "GET", "SUB", "RECV", "DROP", "PROVIDE", "PROVDOWN", "ACTUATE", "BATCH",
-       "CLEANUP", "SHUTDOWN", "TICK", "DUMP"]
+       "CLEANUP", "SHUTDOWN", "TICK", "DUMP", "?15", "?16", "?17", "?18", "?19", "V1GET", "V1SET", "V2GET", "V2GETS",
+       "V2PUB", "V2ACT", "V2BATCH", "V2META", "SDVGET", "SDVSET", "SDVUPD", "SDVREG", "SDVMETA"]
+V1GET, V1SET, V2GET, V2GETS, V2PUB, V2ACT, V2BATCH, V2META, SDVGET, SDVSET, SDVUPD, SDVREG, SDVMETA = range(20, 33)
 
 PATHS = ["Vehicle.Speed", "Vehicle.SpeedLimit", "Vehicle.Speed2", "Vehicle.Cabin.Door.Row1.Left",
          "Vehicle.Cabin.Door.Row2.Left", "Vehicle.Cabin.Lights.IsOn", "Vehicle.ADAS.ABS.IsEnabled",
@@ -28,7 +30,9 @@ class Gen:
     """builds one history; keeps a light-weight picture of what exists so that later operations are
     mostly meaningful (ids of registered signals, open subscriptions, providers)"""
 
-    def __init__(self, rng, weights, nsig=(3, 7), allow_expiry=True):
+    def __init__(self, rng, weights, nsig=(3, 7), allow_expiry=True, wide_values=False, plain_meta=0.5):
+        self.wide_values = wide_values
+        self.plain_meta = plain_meta
         self.rng = rng
         self.w = weights
         self.lines = []
@@ -59,7 +63,7 @@ class Gen:
     def meta_for(self, t):
         r = self.rng
         ms = V.metas_for(t)
-        if r.random() < 0.5:
+        if r.random() < self.plain_meta:
             return (None, None, None)
         mn, mx, al = r.choice(ms)
         # keep the allowed list well-typed most of the time
@@ -81,7 +85,11 @@ class Gen:
             if al is not None and al[0] == V.ARR[k] and r.random() < 0.7:
                 x = r.choice(E.dec_val(al)[0][1])
             else:
-                x = r.choice(pool[:6])
+                x = r.choice(pool if (self.wide_values and mn is None and mx is None) else pool[:6])
+                if self.wide_values and mn is None and mx is None and k in WIDE:
+                    x = r.choice([x] + WIDE[k])
+            if arr and self.wide_values:
+                return E.val(V.ARR[k], [r.choice(pool + WIDE.get(k, [])) for _ in range(r.randrange(0, 5))])
             return E.val(V.ARR[k], [x] * r.randrange(0, 3)) if arr else E.val(k, x)
         c = r.random()
         if c < 0.4:
@@ -225,12 +233,137 @@ class Gen:
         elif k == "tick" and self.expiring and not self.ticked:
             L.append([TICK])
             self.ticked = True
+        elif k in API_KINDS:
+            self.api_op(k)
         else:
             L.append([GET, 0, self.any_id()])
-        if L[-1][0] in (UPDATE, ADD, ACTUATE, BATCH, PROVIDE, CLEANUP, SHUTDOWN, TICK, SUB):
+        if L[-1][0] in (UPDATE, ADD, ACTUATE, BATCH, PROVIDE, CLEANUP, SHUTDOWN, TICK, SUB, V1SET, V2PUB, V2ACT,
+                        V2BATCH, SDVSET, SDVUPD, SDVREG):
             L.append([DUMP])
 
+    # ---- gRPC handler operations
+    def sig(self, sigobj=None):
+        """a v2 SignalID: mostly a path or id of a known signal"""
+        r = self.rng
+        c = r.random()
+        if c < 0.04:
+            return [0], None
+        if c < 0.08:
+            return [1], None
+        s = sigobj or (r.choice(self.sigs) if self.sigs else None)
+        if s is None or c < 0.14:
+            return (r.choice([[2] + E.s("Vehicle.Nope"), [2] + E.s("A" * 1001), [3, 999], [3, -1], [2] + E.s("")])), None
+        return ([2] + E.s(s[1]) if r.random() < 0.5 else [3, s[0]]), s
 
+    def oov(self, sigobj, valid=0.8):
+        """optional message holding an optional value"""
+        r = self.rng
+        c = r.random()
+        if c < 0.05:
+            return [0]
+        if c < 0.10 or sigobj is None:
+            return [1, 0]
+        return [1, 1] + self.value_for(sigobj, valid) if True else None
+
+    def api_op(self, k):
+        r = self.rng
+        L = self.lines
+        p = self.who()
+        some = lambda: (r.choice(self.sigs) if self.sigs else None)
+        if k == "v1get":
+            path = r.choice([s[1] for s in self.sigs] + ["Vehicle", "Vehicle.*", "**", "Vehicle.Cabin", "Vehicle.**.Left",
+                                                         "", "Vehicle..X", "Nope", "Vehicle.ADAS.*.IsEnabled", "*.*"])
+            L.append([V1GET, p, r.choice([0, 1, 1, 2, 3, 3, 20, 10, 7])] + E.s(path))
+        elif k == "v1set":
+            n = r.choice([1, 1, 2, 3])
+            body = []
+            for _ in range(n):
+                s0 = some()
+                c = r.random()
+                if c < 0.04:
+                    body += [0, r.choice([1, 2, 3]), 0, 0]
+                    continue
+                path = s0[1] if (s0 and c > 0.12) else "Vehicle.Unknown"
+                fields = r.choice([1, 1, 1, 2, 3, 0])
+                v = [1, 1] + self.value_for(s0) if (s0 and r.random() < 0.8) else r.choice([[0], [1, 0]])
+                t = [0] if r.random() < 0.6 else ([1, 1] + self.value_for(s0) if s0 else [1, 0])
+                body += [1] + E.s(path) + [fields] + v + t
+            L.append([V1SET, p, n] + body)
+        elif k == "v2get":
+            sg, _ = self.sig()
+            L.append([V2GET, p] + sg)
+        elif k == "v2gets":
+            n = r.choice([0, 1, 2, 3])
+            body = []
+            for _ in range(n):
+                sg, _ = self.sig()
+                if sg == [0]:
+                    sg = [1]
+                body += sg
+            L.append([V2GETS, p, n] + body)
+        elif k == "v2pub":
+            sg, so = self.sig()
+            L.append([V2PUB, p] + sg + self.oov(so or some()))
+        elif k == "v2act":
+            acts = [s for s in self.sigs if s[3] == 2]
+            so = r.choice(acts) if acts and r.random() < 0.7 else some()
+            sg, so2 = self.sig(so)
+            L.append([V2ACT, p] + sg + self.oov(so2 or so, 0.85))
+        elif k == "v2batch":
+            n = r.choice([0, 1, 2, 3])
+            body = []
+            acts = [s for s in self.sigs if s[3] == 2]
+            for _ in range(n):
+                so = r.choice(acts) if acts and r.random() < 0.75 else some()
+                sg, so2 = self.sig(so)
+                body += sg + self.oov(so2 or so, 0.9)
+            L.append([V2BATCH, p, n] + body)
+        elif k == "v2meta":
+            L.append([V2META, p] + E.s(r.choice(["Vehicle", "**", "", "Vehicle.Cabin", "Vehicle.*", "Nope", "Vehicle. X",
+                                                   "Vehicle.ADAS.ABS"] + [s[1] for s in self.sigs[:2]])))
+        elif k == "sdvget":
+            names = [r.choice([s[1] for s in self.sigs] + ["Vehicle.Nope"]) for _ in range(r.choice([0, 1, 2, 3]))]
+            names = list(dict.fromkeys(names))
+            L.append([SDVGET, p, len(names)] + sum([E.s(x) for x in names], []))
+        elif k == "sdvset":
+            names = list(dict.fromkeys([r.choice([s[1] for s in self.sigs] + ["Vehicle.Nope"])
+                                        for _ in range(r.choice([1, 1, 2, 3]))]))
+            body = []
+            for nme in names:
+                so = next((s for s in self.sigs if s[1] == nme), None)
+                body += E.s(nme) + ([1] + self.value_for(so) if (so and r.random() < 0.9) else [0])
+            L.append([SDVSET, p, len(names)] + body)
+        elif k == "sdvupd":
+            ids = list(dict.fromkeys([self.any_id() for _ in range(r.choice([1, 1, 2, 3]))]))
+            body = []
+            for i in ids:
+                so = self.sig_by_id(i)
+                body += [i] + ([1] + self.value_for(so) if (so and r.random() < 0.9) else [0])
+            L.append([SDVUPD, p, len(ids)] + body)
+        elif k == "sdvreg":
+            n = r.choice([1, 1, 2, 3])
+            body = []
+            for j in range(n):
+                nme = r.choice(["Vehicle.Reg%d" % (len(L) * 4 + j), "Vehicle.Speed", "Bad..Name", "Vehicle.RegX"])
+                dt = r.choice([0, 1, 4, 5, 10, 11, 20, 24, 31, 12, 99])
+                ct = r.choice([0, 1, 2, 2, 7])
+                body += E.s(nme) + [dt, ct]
+            L.append([SDVREG, p, n] + body)
+        elif k == "sdvmeta":
+            names = [r.choice([s[1] for s in self.sigs] + ["Vehicle.Nope"]) for _ in range(r.choice([0, 0, 1, 2]))]
+            L.append([SDVMETA, p, len(names)] + sum([E.s(x) for x in names], []))
+
+
+WIDE = {E.F32: [0x7FC00000, 0xFFC00001, 0x7F800001, 0x00000001, 0x807FFFFF, 0x7F7FFFFF, 0xFF800000],
+        E.F64: [0x7FF8000000000000, 0xFFF8000000000001, 0x7FF0000000000001, 1, 0x800FFFFFFFFFFFFF,
+                0x7FEFFFFFFFFFFFFF, 0xFFF0000000000000],
+        E.I32: [-2**31, 2**31 - 1], E.I64: [-2**63, 2**63 - 1], E.U32: [2**32 - 1], E.U64: [2**64 - 1],
+        E.STR: ["", "ä-ö", "a" * 300, " ", "\u0000x"]}
+API_KINDS = ("v1get", "v1set", "v2get", "v2gets", "v2pub", "v2act", "v2batch", "v2meta", "sdvget", "sdvset",
+             "sdvupd", "sdvreg", "sdvmeta")
+W_API = {"v1get": 3, "v1set": 4, "v2get": 3, "v2gets": 1.5, "v2pub": 4, "v2act": 2, "v2batch": 2, "v2meta": 1,
+         "sdvget": 2, "sdvset": 2, "sdvupd": 3, "sdvreg": 1, "sdvmeta": 1, "update": 2, "get": 1, "provide": 1.5,
+         "provdown": 0.3, "cleanup": 0.3, "tick": 0.4, "add": 0.5}
 W_STORE = {"update": 10, "get": 4, "add": 1.5, "sub": 1, "recv": 1, "tick": 0.4, "actuate": 1, "cleanup": 0.3}
 W_SUBS = {"update": 10, "sub": 3, "recv": 5, "drop": 0.7, "cleanup": 1, "tick": 0.4, "shutdown": 0.15, "get": 1,
           "add": 0.5}
@@ -265,7 +398,10 @@ def dec_opt(t, i):
 
 def parse_op(l):
     op = l[0]
-    d = {"op": op, "name": OPN[op] if 0 <= op < 15 else "?"}
+    d = {"op": op, "name": OPN[op] if 0 <= op < len(OPN) else "?"}
+    if 20 <= op <= 32:
+        d["p"] = l[1] if len(l) > 1 else -1
+        d["raw"] = l
     try:
         if op == PERM:
             n = l[2]
@@ -345,7 +481,114 @@ def show_op(d):
         return "ACTUATE p%d id%d %s" % (d["p"], d["id"], sv(d["value"]))
     if n == "BATCH":
         return "BATCH p%d [%s]" % (d["p"], "; ".join("id%d=%s" % (i, sv(v)) for i, v in d["changes"]))
+    if "raw" in d:
+        return "%s p%d %s" % (n, d["p"], show_api(d["raw"]))
     return n
+
+
+def _sig(l, i):
+    k = l[i]
+    if k == 0:
+        return "signal_id=absent", i + 1
+    if k == 1:
+        return "signal_id={}", i + 1
+    if k == 2:
+        m = l[i + 1]
+        return "path=%r" % bytes(l[i + 2:i + 2 + m]).decode("utf-8", "replace")[:40], i + 2 + m
+    return "id=%d" % l[i + 1], i + 2
+
+
+def _oov(l, i):
+    if l[i] == 0:
+        return "absent", i + 1
+    if l[i + 1] == 0:
+        return "value-unset", i + 2
+    v, j = E.dec_val(l, i + 2)
+    return E.show_val(v), j
+
+
+def _str(l, i):
+    m = l[i]
+    return bytes(l[i + 1:i + 1 + m]).decode("utf-8", "replace"), i + 1 + m
+
+
+def show_api(l):
+    """readable form of a handler-level operation line"""
+    try:
+        op = l[0]
+        if op == V1GET:
+            return "view=%d path=%r" % (l[2], _str(l, 3)[0][:60])
+        if op == V1SET:
+            out, i = [], 3
+            for _ in range(l[2]):
+                if l[i] == 0:
+                    path, i = "<no entry>", i + 1
+                else:
+                    path, i = _str(l, i + 1)
+                fields = l[i]
+                v, i = _oov(l, i + 1)
+                t, i = _oov(l, i)
+                out.append("%s fields=%d value=%s target=%s" % (path, fields, v, t))
+            return "[" + "; ".join(out) + "]"
+        if op in (V2GET,):
+            return _sig(l, 2)[0]
+        if op == V2GETS:
+            out, i = [], 3
+            for _ in range(l[2]):
+                s_, i = _sig(l, i)
+                out.append(s_)
+            return "[" + ", ".join(out) + "]"
+        if op in (V2PUB, V2ACT):
+            s_, i = _sig(l, 2)
+            v, i = _oov(l, i)
+            return "%s %s=%s" % (s_, "data_point" if op == V2PUB else "value", v)
+        if op == V2BATCH:
+            out, i = [], 3
+            for _ in range(l[2]):
+                s_, i = _sig(l, i)
+                v, i = _oov(l, i)
+                out.append("%s value=%s" % (s_, v))
+            return "[" + "; ".join(out) + "]"
+        if op == V2META:
+            return "root=%r" % _str(l, 2)[0]
+        if op in (SDVGET, SDVMETA):
+            out, i = [], 3
+            for _ in range(l[2]):
+                x, i = _str(l, i)
+                out.append(x)
+            return str(out)
+        if op == SDVSET:
+            out, i = [], 3
+            for _ in range(l[2]):
+                x, i = _str(l, i)
+                if l[i] == 0:
+                    v, i = "absent", i + 1
+                else:
+                    vv, i = E.dec_val(l, i + 1)
+                    v = E.show_val(vv)
+                out.append("%s=%s" % (x, v))
+            return "[" + "; ".join(out) + "]"
+        if op == SDVUPD:
+            out, i = [], 3
+            for _ in range(l[2]):
+                x = l[i]
+                if l[i + 1] == 0:
+                    v, i = "absent", i + 2
+                else:
+                    vv, i = E.dec_val(l, i + 2)
+                    v = E.show_val(vv)
+                out.append("id%d=%s" % (x, v))
+            return "[" + "; ".join(out) + "]"
+        if op == SDVREG:
+            out, i = [], 3
+            for _ in range(l[2]):
+                x, i = _str(l, i)
+                out.append("%s type=%d change=%d" % (x, l[i], l[i + 1]))
+                i += 2
+            return "[" + "; ".join(out) + "]"
+    except (IndexError, TypeError):
+        pass
+    return str(l)[:120]
 
 
 def pretty(lines):
@@ -373,6 +616,10 @@ def split_outputs(lines, out):
                 return None
             res.append((d, out[i:j + 1]))
             i = j + 1
+        elif op in (V1GET, V2META, SDVGET, SDVMETA) and len(out[i]) == 2 and (op == V1GET or out[i][0] == 0):
+            n = out[i][1]
+            res.append((d, out[i:i + 1 + n]))
+            i += 1 + n
         elif op == DUMP:
             j = i
             while j < len(out) and out[j][0] in (200, 300):
@@ -485,6 +732,253 @@ class Principals:
         return False
 
 
+
+def _read_sig(l, i, byname):
+    """-> (id or None, next index)"""
+    k = l[i]
+    if k in (0, 1):
+        return None, i + 1
+    if k == 2:
+        name, j = _str(l, i + 1)
+        return byname.get(name), j
+    return l[i + 1], i + 2
+
+
+def _read_oov(l, i):
+    """-> ('absent' | (kind, payload)), next"""
+    if l[i] == 0:
+        return "absent", i + 1
+    if l[i + 1] == 0:
+        return (E.NA, None), i + 2
+    v, j = E.dec_val(l, i + 2)
+    return v, j
+
+
+def normalize(d, o, byname, meta):
+    """rewrites a handler-level operation and its output into the equivalent core operations
+    (UPDATE / GET / ACTUATE / BATCH / ADD) understood by the monitors; returns a list of (d', o')"""
+    l = d.get("raw")
+    if l is None:
+        return [(d, o)]
+    op, p = l[0], l[1]
+    first = o[0]
+    res = []
+    try:
+        if op == V2PUB:
+            i, j = _read_sig(l, 2, byname)
+            v, _ = _read_oov(l, j)
+            if i is None or v == "absent":
+                return []
+            ok = first == [0]
+            res.append(({"name": "UPDATE", "op": UPDATE, "p": p, "ups": [{"id": i, "flags": 1, "dp": v}]},
+                        [[0] if ok else [1, i, first[0]]]))
+        elif op == SDVUPD:
+            ups, i = [], 3
+            for _ in range(l[2]):
+                sid = l[i]
+                if l[i + 1] == 0:
+                    v, i = (E.NA, None), i + 2
+                else:
+                    v, i = E.dec_val(l, i + 2)
+                ups.append({"id": sid, "flags": 1, "dp": v})
+            res.append(({"name": "UPDATE", "op": UPDATE, "p": p, "ups": ups}, [first[1:] if first[0] == 0 else [0]]))
+            res[-1] = (res[-1][0], [[first[1]] + first[2:]] if first[0] == 0 and len(first) > 1 else [[0]])
+        elif op in (V1SET, SDVSET):
+            if first[0] != 0 or len(first) < 2:
+                return []
+            ups, i = [], 3
+            for _ in range(l[2]):
+                if op == V1SET:
+                    if l[i] == 0:
+                        return []
+                    name, i = _str(l, i + 1)
+                    fields = l[i]
+                    v, i = _read_oov(l, i + 1)
+                    t, i = _read_oov(l, i)
+                    sid = byname.get(name)
+                    if sid is None:
+                        continue
+                    u = {"id": sid, "flags": 0}
+                    if fields & 1 and v != "absent":
+                        u["flags"] |= 1
+                        u["dp"] = v
+                    if fields & 2:
+                        if t == "absent":
+                            u["flags"] |= 4
+                        else:
+                            u["flags"] |= 2
+                            u["target"] = t
+                    ups.append(u)
+                else:
+                    name, i = _str(l, i)
+                    if l[i] == 0:
+                        v, i = (E.NA, None), i + 1
+                    else:
+                        v, i = E.dec_val(l, i + 1)
+                    sid = byname.get(name)
+                    if sid is None or meta.get(sid, {}).get("etype") != 2:
+                        continue
+                    ups.append({"id": sid, "flags": 2, "target": v})
+            errs = []
+            for j in range(first[1]):
+                k, c = first[2 + 2 * j], first[3 + 2 * j]
+                if k >= 0:
+                    errs += [k, c]
+            res.append(({"name": "UPDATE", "op": UPDATE, "p": p, "ups": ups}, [[len(errs) // 2] + errs]))
+        elif op == V2GET:
+            i, _ = _read_sig(l, 2, byname)
+            if i is not None and first[0] == 0 and len(first) > 2:
+                val = (E.NA, None)
+                ts = first[2]
+                if first[1] == 1:
+                    val, j = E.dec_val(first, 2)
+                    ts = first[j]
+                res.append(({"name": "GET", "op": GET, "p": p, "id": i, "value_only": True},
+                            [[0] + E.val(*val) + [ts, 0]]))
+        elif op in (V2ACT,):
+            i, j = _read_sig(l, 2, byname)
+            v, _ = _read_oov(l, j)
+            if i is None or v == "absent":
+                return []
+            res.append(({"name": "ACTUATE", "op": ACTUATE, "p": p, "id": i, "value": v},
+                        [[0] if first == [0] else [1, first[0]]]))
+        elif op == V2BATCH:
+            cs, i = [], 3
+            for _ in range(l[2]):
+                sid, i = _read_sig(l, i, byname)
+                v, i = _read_oov(l, i)
+                if sid is None or v == "absent":
+                    cs = None
+                    break
+                cs.append((sid, v))
+            if cs is None:
+                if first == [0]:
+                    res.append(({"name": "BATCH", "op": BATCH, "p": p, "changes": []}, [[0]]))
+                else:
+                    res.append(({"name": "BATCH", "op": BATCH, "p": p, "changes": []}, [[1, first[0]]]))
+            else:
+                res.append(({"name": "BATCH", "op": BATCH, "p": p, "changes": cs},
+                            [[0] if first == [0] else [1, first[0]]]))
+        elif op == SDVREG:
+            regs, i = [], 3
+            for _ in range(l[2]):
+                name, i = _str(l, i)
+                regs.append((name, l[i], l[i + 1]))
+                i += 2
+            if first[0] == 0 and len(first) > 1:
+                j = 2
+                for (name, dt, ct) in regs:
+                    m = first[j]
+                    sid = first[j + 1 + m]
+                    j += 2 + m
+                    dtype = {0: 0, 1: 1, 2: 2, 3: 3, 4: 4, 5: 5, 6: 6, 7: 7, 8: 8, 9: 9, 10: 10, 11: 11, 20: 12, 21: 13,
+                             22: 14, 23: 15, 24: 16, 25: 17, 26: 18, 27: 19, 28: 20, 29: 21, 30: 22, 31: 23}.get(dt, 0)
+                    res.append(({"name": "ADD", "op": ADD, "p": p, "path": name, "dtype": dtype, "ctype": ct, "etype": 0,
+                                 "min": None, "max": None, "allowed": None}, [[0, sid]]))
+            else:
+                res.append(({"name": "RESYNC", "op": -1}, [[0]]))
+    except (IndexError, TypeError, KeyError):
+        return []
+    return res
+
+
+KUKSA_DT = [1, 2, 3, 4, 5, 6, 7, 8, 9, 10, 11, 12, 20, 21, 22, 23, 24, 25, 26, 27, 28, 29, 30, 31]
+SDV_DT = [0, 1, 2, 3, 4, 5, 6, 7, 8, 9, 10, 11, 20, 21, 22, 23, 24, 25, 26, 27, 28, 29, 30, 31]
+KUKSA_ET = {0: 2, 1: 1, 2: 3}      # Sensor, Attribute, Actuator -> kuksa numbers
+SDV_ET = {0: 1, 1: 3, 2: 2}
+
+
+def _same_number(a, b):
+    """two scalar values denote the same number (after a widening conversion)"""
+    if a is None or b is None:
+        return a is None and b is None
+    ea, eb = E.exact(*a), E.exact(*b)
+    if ea is None or eb is None:
+        return a == b
+    return ea == eb
+
+
+def meta_check(d, o, meta):
+    """C15: data type, entry type, min, max, allowed reported by an API denote the registered metadata
+    (with the documented gaps of each protocol)"""
+    fails = []
+    op = d["op"]
+    if op not in (V1GET, V2META, SDVMETA) or len(o) < 1 or len(o[0]) != 2 or (op != V1GET and o[0][0] != 0):
+        return fails
+    for l in o[1:]:
+        try:
+            sid = l[1]
+            m = meta.get(sid)
+            if m is None:
+                continue
+            if l[0] == 201 or l[0] == 202:
+                tbl, et = (KUKSA_DT, KUKSA_ET) if l[0] == 201 else (SDV_DT, SDV_ET)
+                if l[2] != tbl[m["dtype"]]:
+                    fails.append("C15-meta: %s reports data type %d for %s" % (d["name"], l[2], E.DATA_TYPES[m["dtype"]]))
+                if l[3] != et[m["etype"]]:
+                    fails.append("C15-meta: %s reports entry type %d for entry type %d" % (d["name"], l[3], m["etype"]))
+                i = 4
+                if l[0] == 202:
+                    n = l[5]
+                    i = 6 + n
+                got = []
+                for _ in range(3):
+                    if l[i] == 0:
+                        got.append(None)
+                        i += 1
+                    else:
+                        v, i = E.dec_val(l, i + 1)
+                        got.append(v)
+                for nm, g, reg in (("min", got[0], m.get("min")), ("max", got[1], m.get("max")),
+                                   ("allowed", got[2], m.get("allowed"))):
+                    exp = reg
+                    if nm != "allowed" and exp is not None and exp[0] > E.F64:
+                        exp = None            # arrays are not a min/max
+                    if nm == "allowed" and exp is not None and (exp[0] < E.BOOLA or (l[0] == 202 and exp[0] == E.BOOLA)):
+                        exp = None            # sdv has no bool allowed list; scalars are not an allowed list
+                    if g != exp:
+                        fails.append("C15-meta: %s reports %s=%s for registered %s" % (d["name"], nm, g, reg))
+            elif l[0] == 203:
+                i = 2
+                for _ in range(2):          # value, target
+                    if l[i] == 0:
+                        i += 1
+                    else:
+                        if l[i + 1] == 0:
+                            i += 3
+                        else:
+                            _, j = E.dec_val(l, i + 2)
+                            i = j + 1
+                if l[i] == 1:
+                    if l[i + 1] != KUKSA_DT[m["dtype"]]:
+                        fails.append("C15-meta: V1GET reports data type %d for %s" % (l[i + 1], E.DATA_TYPES[m["dtype"]]))
+                    if l[i + 2] != KUKSA_ET[m["etype"]]:
+                        fails.append("C15-meta: V1GET reports entry type %d for entry type %d" % (l[i + 2], m["etype"]))
+                    fam = l[i + 3]
+                    k = V.NAT[m["dtype"]][0]
+                    expfam = {E.STR: 1, E.I32: 2, E.I64: 2, E.U32: 3, E.U64: 3, E.F32: 4, E.F64: 4}.get(k, 0)
+                    if fam in (2, 3, 4):
+                        j = i + 4
+                        vals = []
+                        for _ in range(2):
+                            if l[j] == 0:
+                                vals.append(None)
+                                j += 1
+                            else:
+                                vals.append(l[j + 1])
+                                j += 2
+                        wk = {2: E.I64, 3: E.U64, 4: E.F64}[fam]
+                        for nm, g in (("min", vals[0]), ("max", vals[1])):
+                            reg = m.get(nm)
+                            if g is not None and not _same_number((wk, g), reg):
+                                fails.append("C15-meta: V1GET reports %s=%s for registered %s" % (nm, g, reg))
+                        if fam != expfam:
+                            fails.append("C15-meta: V1GET reports a restriction of family %d for %s" % (fam, E.DATA_TYPES[m["dtype"]]))
+        except (IndexError, KeyError, TypeError):
+            fails.append("C15-meta: unreadable metadata line %s" % l[:12])
+    return fails
+
+
 def monitor(lines, out, props):
     """property monitors over an implementation trace; `props` selects the clauses to evaluate.
     Returns a list of 'clause: text' strings."""
@@ -506,173 +1000,191 @@ def monitor(lines, out, props):
     next_id = 0
     pend = None      # (op index, parsed op, output) of the last mutating op, judged at the next DUMP
     _down = set()
+    byname = {}
+    expanded = []
     for k, (d, o) in enumerate(al, 1):
-        name = d["name"]
-        if o[0] == [-77]:
-            fails.append("panic: %s panicked" % show_op(d))
-            continue
-        if o[0] == [-66]:
-            return fails + ["timing: the expiry instant could not be placed (machine too slow?)"]
-        if o[0] == [-1]:
-            continue
-        if name == "PERM":
-            ok = P.add(d["scope"], d["exp"])
-            if ok != (o[0] == [1]):
-                fails.append("C05-claim: scope %r %s" % (d["scope"], "accepted" if o[0] == [1] else "rejected"))
-        elif name == "TICK":
-            ticked = True
-        elif name == "ADD":
-            r = o[0]
-            if r[0] == 0:
-                i = r[1]
-                if i in paths and paths[i] != d["path"]:
-                    fails.append("C16-identity: id %d given to %s and to %s" % (i, paths[i], d["path"]))
-                known = [j for j, pth in paths.items() if pth == d["path"]]
-                if known and known[0] != i:
-                    fails.append("C16-identity: path %s has ids %d and %d" % (d["path"], known[0], i))
-                if not known:
-                    if i != next_id:
-                        fails.append("C16-ids: new signal got id %d, expected %d (refusals must not consume ids)" % (i, next_id))
-                    next_id = i + 1
-                    paths[i] = d["path"]
-                    meta[i] = d
-                    ack[i] = ((0, None), k)
-                    ack_t[i] = None
-                    c = P.can(d["p"], "create", d["path"], ticked)
-                    if c is False:
-                        fails.append("C04-create: p%d registered %s without create permission" % (d["p"], d["path"]))
-                    seg_ok = all(s and not any(ch in s for ch in " \t\n:*") for s in d["path"].split("."))
-                    if not seg_ok:
-                        fails.append("C16-name: invalid name %r was registered" % d["path"])
-                    if d.get("allowed") is not None and d["allowed"][0] != V.ARR[V.NAT[d["dtype"]][0]]:
-                        fails.append("C16-meta: allowed list of kind %s registered for %s" % (
-                            E.KIND_NAMES[d["allowed"][0]], E.DATA_TYPES[d["dtype"]]))
-        elif name == "UPDATE":
-            r = o[0]
-            errlist = [(r[1 + 2 * j], r[2 + 2 * j]) for j in range(r[0])]
-            nerr, nel = {}, {}
-            for (i, _c) in errlist:
-                nerr[i] = nerr.get(i, 0) + 1
-            for u in d["ups"]:
-                nel[u["id"]] = nel.get(u["id"], 0) + 1
-            for u in d["ups"]:
-                i = u["id"]
-                if nerr.get(i, 0) == nel[i]:
-                    continue                      # every element addressing this id was rejected
-                if nerr.get(i, 0) > 0:
-                    # some but not all elements for this id were rejected: the response does not say which
-                    ack[i] = None
-                    ack_t[i] = "unknown"
-                    continue
-                i = u["id"]
-                if i not in paths:
-                    continue
-                if "dp" in u:
-                    cont = meta[i]["ctype"] == 2
-                    if ack.get(i) is None:
-                        pass
-                    elif cont or not ieee_value_eq(u["dp"], ack[i][0]):
-                        ack[i] = (u["dp"], k)
-                    if P.can(d["p"], "provide", paths[i], ticked) is False:
-                        fails.append("C04-provide: p%d changed the value of %s without provide permission" % (d["p"], paths[i]))
-                    if u["dp"][0] != E.NA:
-                        m = meta[i]
-                        if V.in_domain(m["dtype"], m.get("min"), m.get("max"), m.get("allowed"), u["dp"], False) is False:
-                            fails.append("C02-stored: %s accepted %s outside its domain" % (paths[i], E.show_val(u["dp"])))
-                if u["flags"] & 2:
-                    if ack_t.get(i) != "unknown":
-                        ack_t[i] = (u["target"], k)
-                    if P.can(d["p"], "actuate", paths[i], ticked) is False:
-                        fails.append("C04-actuate: p%d set the target of %s without actuate permission" % (d["p"], paths[i]))
-                elif u["flags"] & 4:
-                    if ack_t.get(i) != "unknown":
-                        ack_t[i] = None
-                    if P.can(d["p"], "actuate", paths[i], ticked) is False:
-                        fails.append("C04-actuate: p%d cleared the target of %s without actuate permission" % (d["p"], paths[i]))
-        elif name == "GET":
-            r = o[0]
-            if r[0] == 0 and d["id"] in paths:
-                if P.can(d["p"], "read", paths[d["id"]], ticked) is False:
-                    fails.append("C03-get: p%d read %s without read permission%s" % (
-                        d["p"], paths[d["id"]], " (token expired)" if ticked else ""))
-                v, i = E.dec_val(r, 1)
-                exp = ack.get(d["id"])
-                if exp and (not same_bits(v, exp[0]) or r[i] != exp[1]):
-                    fails.append("C01-read: %s reads %s@%d, last acknowledged write is %s@%d" % (
-                        paths[d["id"]], E.show_val(v), r[i], E.show_val(exp[0]), exp[1]))
-        elif name == "SUB":
-            if o[0][0] == 0:
-                subs[o[0][1]] = {"entries": dict(d["entries"]), "p": d["p"], "k": k, "msgs": 0}
-        elif name == "RECV":
-            s = subs.get(d["h"])
-            for ml in o[:-1]:
-                msg = dec_message(ml)
-                if s is None:
-                    continue
-                s["msgs"] += 1
-                first = s["msgs"] == 1
-                tss = set()
-                for n in msg:
-                    if n["id"] not in s["entries"]:
-                        fails.append("C07-foreign: sub%d got a notification for unsubscribed id %d" % (d["h"], n["id"]))
-                        continue
-                    mask = s["entries"][n["id"]]
-                    if (n["dp"] and not mask & 1) or (n["target"] and not mask & 2):
-                        fails.append("C07-field: sub%d got an unsubscribed field of id %d" % (d["h"], n["id"]))
-                    for fld in ("dp", "target"):
-                        x = n[fld]
-                        if x and x != "cleared":
-                            tss.add(x[1])
-                            pth = paths.get(n["id"])
-                            if pth and P.can(s["p"], "read", pth, False) is False:
-                                fails.append("C03-notify: sub%d (p%d) was sent the %s of %s without read permission" % (
-                                    d["h"], s["p"], fld, pth))
-                            if pth and P.scopes and s["p"] < len(P.scopes) and 0 <= s["p"] and P.scopes[s["p"]][1] \
-                                    and ticked and x[1] > _tick_index(al):
-                                fails.append("C03-expired: sub%d was sent a value written after its token expired" % d["h"])
-                if not first and not msg:
-                    fails.append("C07-empty: sub%d got an empty change message" % d["h"])
-        elif name == "PROVIDE":
-            if o[0][0] == 0:
-                live = [x for x in owners if x[3]]
-                for (h, ids, p, _) in live:
-                    both = set(ids) & set(d["ids"])
-                    if both:
-                        fails.append("C10-overlap: claim of %s accepted while provider %d owns %s" % (
-                            d["ids"], h, sorted(both)))
-                for i in d["ids"]:
-                    if i in paths and P.can(d["p"], "actuate", paths[i], ticked) is False:
-                        fails.append("C04-claim: p%d claimed %s without actuate permission" % (d["p"], paths[i]))
-                owners.append((o[0][1], list(d["ids"]), d["p"], True))
-        elif name in ("ACTUATE", "BATCH"):
-            pend = (k, d, o[0])
-        elif name in ("CLEANUP", "SHUTDOWN"):
-            # providers that are down/expired lose their claims; on shutdown everybody does
-            new = []
-            for (h, ids, p, alive) in owners:
-                gone = name == "SHUTDOWN" or h in _down or \
-                    (0 <= p < len(P.scopes) and P.scopes[p][1] and ticked)
-                new.append((h, ids, p, alive and not gone))
-            owners = new
-        elif name == "PROVDOWN":
-            _down.add(d["h"])
-        elif name == "DUMP":
-            ents, provs = dec_dump(o)
-            # C01: stored state is exactly the fold of acknowledgements
-            for i, (v, ts, tgt) in ents.items():
-                exp = ack.get(i)
-                if exp and (not same_bits(v, exp[0]) or ts != exp[1]):
-                    fails.append("C01-state: %s holds %s@%d, last acknowledged write is %s@%d" % (
-                        paths.get(i), E.show_val(v), ts, E.show_val(exp[0]), exp[1]))
-                et = ack_t.get(i)
-                got = None if tgt is None else (tgt[0], tgt[1])
-                if i in ack_t and et != "unknown" and got != et:
-                    fails.append("C01-target: %s target is %s, last acknowledged is %s" % (paths.get(i), got, et))
-            # C09: judge the last actuation against the inbox growth
-            if pend:
-                fails += _judge_actuation(pend, last[1], provs, owners, paths, meta, P, ticked)
-                pend = None
-            last = (ents, provs)
+        expanded.append((k, d, o))
+    for (k, d0, o0) in expanded:
+      if o0 and o0[0] == [-77]:
+        fails.append("panic: %s panicked" % show_op(d0))
+        continue
+      if "raw" in d0:
+        fails += meta_check(d0, o0, meta)
+      for (d, o) in normalize(d0, o0, byname, meta):
+          name = d["name"]
+          if name == "RESYNC":
+              next_id = None
+              continue
+          if o[0] == [-77]:
+              fails.append("panic: %s panicked" % show_op(d))
+              continue
+          if o[0] == [-66]:
+              return fails + ["timing: the expiry instant could not be placed (machine too slow?)"]
+          if o[0] == [-1]:
+              continue
+          if name == "PERM":
+              ok = P.add(d["scope"], d["exp"])
+              if ok != (o[0] == [1]):
+                  fails.append("C05-claim: scope %r %s" % (d["scope"], "accepted" if o[0] == [1] else "rejected"))
+          elif name == "TICK":
+              ticked = True
+          elif name == "ADD":
+              r = o[0]
+              if r[0] == 0:
+                  i = r[1]
+                  if i in paths and paths[i] != d["path"]:
+                      fails.append("C16-identity: id %d given to %s and to %s" % (i, paths[i], d["path"]))
+                  known = [j for j, pth in paths.items() if pth == d["path"]]
+                  if known and known[0] != i:
+                      fails.append("C16-identity: path %s has ids %d and %d" % (d["path"], known[0], i))
+                  if not known:
+                      if next_id is not None and i != next_id:
+                          fails.append("C16-ids: new signal got id %d, expected %d (refusals must not consume ids)" % (i, next_id))
+                      next_id = i + 1
+                      paths[i] = d["path"]
+                      byname[d["path"]] = i
+                      meta[i] = d
+                      ack[i] = ((0, None), k)
+                      ack_t[i] = None
+                      c = P.can(d["p"], "create", d["path"], ticked)
+                      if c is False:
+                          fails.append("C04-create: p%d registered %s without create permission" % (d["p"], d["path"]))
+                      seg_ok = all(s and not any(ch in s for ch in " \t\n:*") for s in d["path"].split("."))
+                      if not seg_ok:
+                          fails.append("C16-name: invalid name %r was registered" % d["path"])
+                      if d.get("allowed") is not None and d["allowed"][0] != V.ARR[V.NAT[d["dtype"]][0]]:
+                          fails.append("C16-meta: allowed list of kind %s registered for %s" % (
+                              E.KIND_NAMES[d["allowed"][0]], E.DATA_TYPES[d["dtype"]]))
+          elif name == "UPDATE":
+              r = o[0]
+              errlist = [(r[1 + 2 * j], r[2 + 2 * j]) for j in range(r[0])]
+              nerr, nel = {}, {}
+              for (i, _c) in errlist:
+                  nerr[i] = nerr.get(i, 0) + 1
+              for u in d["ups"]:
+                  nel[u["id"]] = nel.get(u["id"], 0) + 1
+              for u in d["ups"]:
+                  i = u["id"]
+                  if nerr.get(i, 0) == nel[i]:
+                      continue                      # every element addressing this id was rejected
+                  if nerr.get(i, 0) > 0:
+                      # some but not all elements for this id were rejected: the response does not say which
+                      ack[i] = None
+                      ack_t[i] = "unknown"
+                      continue
+                  i = u["id"]
+                  if i not in paths:
+                      continue
+                  if "dp" in u:
+                      cont = meta[i]["ctype"] == 2
+                      if ack.get(i) is None:
+                          pass
+                      elif (not cont) and ieee_value_eq(u["dp"], ack[i][0]) and u["dp"] != ack[i][0]:
+                          fails.append("C15-bits: accepted write of %s to the non-continuous signal %s is dropped because "
+                                       "it compares equal to the stored %s; readers keep seeing the old bits"
+                                       % (E.show_val(u["dp"]), paths[i], E.show_val(ack[i][0])))
+                      elif cont or not ieee_value_eq(u["dp"], ack[i][0]):
+                          ack[i] = (u["dp"], k)
+                      if P.can(d["p"], "provide", paths[i], ticked) is False:
+                          fails.append("C04-provide: p%d changed the value of %s without provide permission" % (d["p"], paths[i]))
+                      if u["dp"][0] != E.NA:
+                          m = meta[i]
+                          if V.in_domain(m["dtype"], m.get("min"), m.get("max"), m.get("allowed"), u["dp"], False) is False:
+                              fails.append("C02-stored: %s accepted %s outside its domain" % (paths[i], E.show_val(u["dp"])))
+                  if u["flags"] & 2:
+                      if ack_t.get(i) != "unknown":
+                          ack_t[i] = (u["target"], k)
+                      if P.can(d["p"], "actuate", paths[i], ticked) is False:
+                          fails.append("C04-actuate: p%d set the target of %s without actuate permission" % (d["p"], paths[i]))
+                  elif u["flags"] & 4:
+                      if ack_t.get(i) != "unknown":
+                          ack_t[i] = None
+                      if P.can(d["p"], "actuate", paths[i], ticked) is False:
+                          fails.append("C04-actuate: p%d cleared the target of %s without actuate permission" % (d["p"], paths[i]))
+          elif name == "GET":
+              r = o[0]
+              if r[0] == 0 and d["id"] in paths:
+                  if P.can(d["p"], "read", paths[d["id"]], ticked) is False:
+                      fails.append("C03-get: p%d read %s without read permission%s" % (
+                          d["p"], paths[d["id"]], " (token expired)" if ticked else ""))
+                  v, i = E.dec_val(r, 1)
+                  exp = ack.get(d["id"])
+                  if exp and (not same_bits(v, exp[0]) or r[i] != exp[1]):
+                      fails.append("C01-read: %s reads %s@%d, last acknowledged write is %s@%d" % (
+                          paths[d["id"]], E.show_val(v), r[i], E.show_val(exp[0]), exp[1]))
+          elif name == "SUB":
+              if o[0][0] == 0:
+                  subs[o[0][1]] = {"entries": dict(d["entries"]), "p": d["p"], "k": k, "msgs": 0}
+          elif name == "RECV":
+              s = subs.get(d["h"])
+              for ml in o[:-1]:
+                  msg = dec_message(ml)
+                  if s is None:
+                      continue
+                  s["msgs"] += 1
+                  first = s["msgs"] == 1
+                  tss = set()
+                  for n in msg:
+                      if n["id"] not in s["entries"]:
+                          fails.append("C07-foreign: sub%d got a notification for unsubscribed id %d" % (d["h"], n["id"]))
+                          continue
+                      mask = s["entries"][n["id"]]
+                      if (n["dp"] and not mask & 1) or (n["target"] and not mask & 2):
+                          fails.append("C07-field: sub%d got an unsubscribed field of id %d" % (d["h"], n["id"]))
+                      for fld in ("dp", "target"):
+                          x = n[fld]
+                          if x and x != "cleared":
+                              tss.add(x[1])
+                              pth = paths.get(n["id"])
+                              if pth and P.can(s["p"], "read", pth, False) is False:
+                                  fails.append("C03-notify: sub%d (p%d) was sent the %s of %s without read permission" % (
+                                      d["h"], s["p"], fld, pth))
+                              if pth and P.scopes and s["p"] < len(P.scopes) and 0 <= s["p"] and P.scopes[s["p"]][1] \
+                                      and ticked and x[1] > _tick_index(al):
+                                  fails.append("C03-expired: sub%d was sent a value written after its token expired" % d["h"])
+                  if not first and not msg:
+                      fails.append("C07-empty: sub%d got an empty change message" % d["h"])
+          elif name == "PROVIDE":
+              if o[0][0] == 0:
+                  live = [x for x in owners if x[3]]
+                  for (h, ids, p, _) in live:
+                      both = set(ids) & set(d["ids"])
+                      if both:
+                          fails.append("C10-overlap: claim of %s accepted while provider %d owns %s" % (
+                              d["ids"], h, sorted(both)))
+                  for i in d["ids"]:
+                      if i in paths and P.can(d["p"], "actuate", paths[i], ticked) is False:
+                          fails.append("C04-claim: p%d claimed %s without actuate permission" % (d["p"], paths[i]))
+                  owners.append((o[0][1], list(d["ids"]), d["p"], True))
+          elif name in ("ACTUATE", "BATCH"):
+              pend = (k, d, o[0])
+          elif name in ("CLEANUP", "SHUTDOWN"):
+              # providers that are down/expired lose their claims; on shutdown everybody does
+              new = []
+              for (h, ids, p, alive) in owners:
+                  gone = name == "SHUTDOWN" or h in _down or \
+                      (0 <= p < len(P.scopes) and P.scopes[p][1] and ticked)
+                  new.append((h, ids, p, alive and not gone))
+              owners = new
+          elif name == "PROVDOWN":
+              _down.add(d["h"])
+          elif name == "DUMP":
+              ents, provs = dec_dump(o)
+              # C01: stored state is exactly the fold of acknowledgements
+              for i, (v, ts, tgt) in ents.items():
+                  exp = ack.get(i)
+                  if exp and (not same_bits(v, exp[0]) or ts != exp[1]):
+                      fails.append("C01-state: %s holds %s@%d, last acknowledged write is %s@%d" % (
+                          paths.get(i), E.show_val(v), ts, E.show_val(exp[0]), exp[1]))
+                  et = ack_t.get(i)
+                  got = None if tgt is None else (tgt[0], tgt[1])
+                  if i in ack_t and et != "unknown" and got != et:
+                      fails.append("C01-target: %s target is %s, last acknowledged is %s" % (paths.get(i), got, et))
+              # C09: judge the last actuation against the inbox growth
+              if pend:
+                  fails += _judge_actuation(pend, last[1], provs, owners, paths, meta, P, ticked)
+                  pend = None
+              last = (ents, provs)
     return [f for f in fails if not props or f.split("-")[0] in props or f.split(":")[0] in ("panic", "timing", "malformed-output")]
 
 
